@@ -1173,6 +1173,8 @@ struct json_object *json_tokener_parse_ex(struct json_tokener *tok, const char *
 		case json_tokener_state_array_add:
 			if (json_object_array_add(current, obj) != 0)
 			{
+				/* the element was not attached: the reference is still ours */
+				json_object_put(obj);
 				tok->err = json_tokener_error_memory;
 				goto out;
 			}
@@ -1298,6 +1300,8 @@ struct json_object *json_tokener_parse_ex(struct json_tokener *tok, const char *
 		case json_tokener_state_object_value_add:
 			if (json_object_object_add(current, obj_field_name, obj) != 0)
 			{
+				/* the value was not attached: the reference is still ours */
+				json_object_put(obj);
 				tok->err = json_tokener_error_memory;
 				goto out;
 			}
